@@ -3,7 +3,11 @@
 package failsafehttp
 
 import (
+	"bytes"
+	"context"
+	"io"
 	"net/http"
+	"net/url"
 	"time"
 
 	"github.com/failsafe-go/failsafe-go"
@@ -105,4 +109,182 @@ func ZZ_H18d_RetryAfterScheduled() {
 		zzvrt.Assert(scheduled[0] == 0, "http: no delay is computed without a Retry-After header")
 		zzvrt.Assert(scheduled[1] >= want, "http: the retry waits at least the Retry-After given in seconds")
 	}
+}
+
+type zzCtxKey struct{}
+
+// zzRespBody is the stub transport's response body. It follows net/http's documented contract for the
+// request context ("the context controls the entire lifetime of a request and its response: obtaining a
+// connection, sending the request, and reading the response headers and body"): once the context of the
+// request that produced it is done, reads fail with the context's error.
+type zzRespBody struct {
+	ctx    context.Context
+	left   int
+	closed int
+}
+
+func (b *zzRespBody) Read(p []byte) (int, error) {
+	if err := b.ctx.Err(); err != nil {
+		return 0, err
+	}
+	if b.left == 0 {
+		return 0, io.EOF
+	}
+	b.left--
+	p[0] = 'x'
+	return 1, nil
+}
+func (b *zzRespBody) Close() error { b.closed++; return nil }
+
+// zzSeeker is a caller-supplied io.ReadSeeker body (not a bytes type).
+type zzSeeker struct {
+	data []byte
+	pos  int
+}
+
+func (s *zzSeeker) Read(p []byte) (int, error) {
+	if s.pos >= len(s.data) {
+		return 0, io.EOF
+	}
+	p[0] = s.data[s.pos]
+	s.pos++
+	return 1, nil
+}
+func (s *zzSeeker) Seek(off int64, whence int) (int64, error) { s.pos = int(off); return off, nil }
+
+// zzPlainReader is a caller-supplied one-shot io.Reader body.
+type zzPlainReader struct {
+	data []byte
+	pos  int
+}
+
+func (s *zzPlainReader) Read(p []byte) (int, error) {
+	if s.pos >= len(s.data) {
+		return 0, io.EOF
+	}
+	p[0] = s.data[s.pos]
+	s.pos++
+	return 1, nil
+}
+func (s *zzPlainReader) Close() error { return nil }
+
+// H18e: doRequest (the common core of the failsafe RoundTripper and Request) against a stub transport:
+// every attempt gets the original method, URL and headers and the complete original body, runs under a context
+// that carries the caller's values and is live; the response finally returned is the last attempt's and its
+// body can be read to the end after doRequest returned.
+func ZZ_H18e_DoRequest() {
+	n := zzvrt.Choose("body-len", 3)
+	orig := make([]byte, n)
+	for i := range orig {
+		orig[i] = zzvrt.Byte("body-byte")
+	}
+	var body io.ReadCloser
+	switch zzvrt.Choose("body-kind", 5) {
+	case 0:
+		body = nil
+		orig = nil
+	case 1:
+		body = io.NopCloser(bytes.NewBuffer(append([]byte(nil), orig...)))
+	case 2:
+		body = io.NopCloser(bytes.NewReader(orig))
+	case 3:
+		body = io.NopCloser(&zzSeeker{data: orig})
+	case 4:
+		body = &zzPlainReader{data: orig}
+	}
+	var callerCtx context.Context = context.Background()
+	callerCancel := func() {}
+	callerKind := zzvrt.Choose("caller-ctx", 3)
+	switch callerKind {
+	case 1:
+		callerCtx = context.WithValue(context.Background(), zzCtxKey{}, 42)
+	case 2:
+		callerCtx, callerCancel = context.WithCancel(context.WithValue(context.Background(), zzCtxKey{}, 42))
+	}
+	u := &url.URL{Scheme: "http", Host: "example.test", Path: "/p"}
+	req := (&http.Request{Method: "POST", URL: u, Header: http.Header{"X-A": []string{"1"}}, Body: body}).WithContext(callerCtx)
+
+	// executor kinds: plain; with its own (cancellable) context, as with WithContext / async / an enclosing Timeout or hedge
+	rp := RetryPolicyBuilder().WithMaxRetries(2).Build()
+	ex := failsafe.NewExecutor[*http.Response](rp)
+	exCancel := func() {}
+	execHasCtx := zzvrt.Choose("executor-ctx", 2) == 1
+	if execHasCtx {
+		var ectx context.Context
+		ectx, exCancel = context.WithCancel(context.Background())
+		ex = ex.WithContext(ectx)
+	}
+	failures := zzvrt.Choose("retryable-responses", 3) // 0..2 attempts answer 503 before the 200
+	var bodies []*zzRespBody
+	attempts := 0
+	reqFn := func(r *http.Request) (*http.Response, error) {
+		attempts++
+		zzvrt.Assert(r.Method == "POST", "http: every attempt is sent with the original method")
+		zzvrt.Assert(r.URL == u, "http: every attempt is sent to the original URL")
+		zzvrt.Assert(len(r.Header["X-A"]) == 1 && r.Header["X-A"][0] == "1", "http: every attempt is sent with the original headers")
+		var got []byte
+		if r.Body != nil {
+			buf := make([]byte, 1)
+			for {
+				k, err := r.Body.Read(buf)
+				if k > 0 {
+					got = append(got, buf[0])
+				}
+				if err != nil {
+					break
+				}
+			}
+		}
+		zzvrt.Assert(len(got) == len(orig), "http: every attempt is sent with the complete original body")
+		if len(got) == len(orig) {
+			for i := range got {
+				zzvrt.Assert(got[i] == orig[i], "http: every attempt is sent with the complete original body")
+			}
+		}
+		actx := r.Context()
+		zzvrt.Assert(actx.Err() == nil, "http: the attempt's context is live while the caller's and the execution's are")
+		if callerKind != 0 {
+			zzvrt.Assert(actx.Value(zzCtxKey{}) == 42, "http: the attempt's context carries the caller's context values")
+		}
+		rb := &zzRespBody{ctx: actx, left: 2}
+		bodies = append(bodies, rb)
+		code := 200
+		if attempts <= failures {
+			code = 503
+		}
+		return &http.Response{StatusCode: code, Header: http.Header{}, Body: rb}, nil
+	}
+	resp, err := doRequest(req, ex, reqFn)
+	zzvrt.Assert(err == nil, "http: the final successful response is returned")
+	zzvrt.Assert(attempts == failures+1, "http: 429 and 5xx except 501 are retried")
+	if err == nil && resp != nil {
+		zzvrt.Assert(resp.StatusCode == 200, "http: the response finally returned is the last attempt's")
+		zzvrt.Assert(resp.Body == io.ReadCloser(bodies[len(bodies)-1]), "http: the response finally returned is the last attempt's")
+		// the caller now reads the body to the end
+		buf := make([]byte, 1)
+		read := 0
+		var rerr error
+		for {
+			k, e := resp.Body.Read(buf)
+			read += k
+			if e != nil {
+				rerr = e
+				break
+			}
+		}
+		// (separate labels per context configuration: the merged-context case is known finding F-C18-2, any other failure is new)
+		lab := "http-body: the returned response's body can be read to the end"
+		if callerKind != 0 && execHasCtx {
+			lab = "http-body: the returned response's body can be read to the end (request and executor both carry a context)"
+		}
+		zzvrt.Assert(rerr == io.EOF, lab)
+		zzvrt.Assert(read == 2, lab)
+		for i := 0; i+1 < len(bodies); i++ {
+			zzvrt.Assert(bodies[i].closed >= 1, "http-close: responses obtained but not returned (retried attempts) are closed")
+		}
+		zzvrt.Assert(bodies[len(bodies)-1].closed == 0, "http-close: the returned response is not closed by the adapter")
+	}
+	callerCancel()
+	exCancel()
+	zzvrt.Reach("dorequest-done")
 }
